@@ -31,6 +31,7 @@ ASSUMPTIONS = ["node names and keys are str (HashClient builds node names as 'ho
 NOT_COVERED = ["'keys spread over all servers' is a statistical statement about murmur3's output distribution: no contract expresses it",
                "bytes keys (formatted through repr) are covered only as an uninterpreted rendering"]
 BUDGET = {"quick": 30, "thorough": 120}
+DEPENDS = ["C14"]      # murmur3_32 is the hash function of the published rule
 
 S = z3.StringSort()
 H = z3.Function("hash_function", S, z3.IntSort())
@@ -129,6 +130,7 @@ def build(E, tier):
     # the key handed to the placement function is the caller's raw routing key (not the validated / prefixed one)
     from . import hashmany
     hashmany.verify_get_client(E, "C11")
+    hashmany.verify_make_client_key(E, "C11")
 
 
 def get_node(E):
